@@ -2,6 +2,8 @@ SPECIFICATION Spec
 CONSTANTS
     Impl = "ref"
     Kind = "sn"
+    Half = "modes"
+    Temps = {1000}
     MaxBn = 1
     TrackHist = TRUE
     MaxLen = 3
